@@ -33,6 +33,68 @@ type gObj struct {
 	ref     int      // tag
 	refKind byte     // tag: kind of the referent
 	pad     int      // commit/tag: message length
+	// extra header lines that git accepts after committer/tagger and that are NOT a tree, a
+	// parent, the tagged object or its type although they are spelt like one (0 = none)
+	extra    int
+	extraRef int // object whose id the extra header carries
+}
+
+// extraHeaders renders the extra header lines of a commit or tag (see gObj.extra).
+func (o *gObj) extraHeaders(hexOID func(int) string) string {
+	switch {
+	case o.kind == 'c' && o.extra == 1:
+		return "parent " + hexOID(o.extraRef) + "\n"
+	case o.kind == 'c' && o.extra == 2:
+		return "tree " + hexOID(o.extraRef) + "\n"
+	case o.kind == 'c' && o.extra == 3:
+		return "parent of nothing\n"
+	case o.kind == 'c' && o.extra == 4:
+		return "gpgsig -----BEGIN\n parent " + hexOID(o.extraRef) + "\n tree " + hexOID(o.extraRef) + "\n -----END\n"
+	case o.kind == 'g' && o.extra == 1:
+		return "object " + hexOID(o.extraRef) + "\n"
+	case o.kind == 'g' && o.extra == 2:
+		return "type blob\n"
+	}
+	return ""
+}
+
+func (o *gObj) padField() string {
+	if o.extra == 0 {
+		return strconv.Itoa(o.pad)
+	}
+	return fmt.Sprintf("%dx%dx%d", o.pad, o.extra, o.extraRef)
+}
+
+func (o *gObj) setPadField(f string) {
+	parts := strings.Split(f, "x")
+	o.pad, _ = strconv.Atoi(parts[0])
+	if len(parts) == 3 {
+		o.extra, _ = strconv.Atoi(parts[1])
+		o.extraRef, _ = strconv.Atoi(parts[2])
+	}
+}
+
+// genExtra chooses an extra header for the commit or tag o (about one object in ten).
+func genExtra(r *rng, o *gObj, commits, trees []int) {
+	if !r.coin(1, 10) {
+		return
+	}
+	if o.kind == 'g' {
+		o.extra, o.extraRef = 1+r.n(2), o.ref
+		return
+	}
+	switch v := 1 + r.n(4); v {
+	case 1, 4:
+		if len(commits) == 0 {
+			o.extra = 3
+		} else {
+			o.extra, o.extraRef = v, commits[r.n(len(commits))]
+		}
+	case 2:
+		o.extra, o.extraRef = 2, trees[r.n(len(trees))]
+	default:
+		o.extra = 3
+	}
 }
 
 func oidOf(i int) []byte {
@@ -77,11 +139,15 @@ func (o *gObj) data(objs []gObj) []byte {
 		for _, p := range o.parents {
 			fmt.Fprintf(&b, "parent %s\n", hex.EncodeToString(oidOf(p)))
 		}
-		b.WriteString("author A <a@e> 1 +0000\ncommitter C <c@e> 1 +0000\n\n")
+		b.WriteString("author A <a@e> 1 +0000\ncommitter C <c@e> 1 +0000\n")
+		b.WriteString(o.extraHeaders(func(i int) string { return hex.EncodeToString(oidOf(i)) }))
+		b.WriteString("\n")
 		b.WriteString(strings.Repeat("x", o.pad))
 	case 'g':
 		typ := map[byte]string{'b': "blob", 't': "tree", 'c': "commit", 'g': "tag"}[o.refKind]
-		fmt.Fprintf(&b, "object %s\ntype %s\ntag t\ntagger T <t@e> 1 +0000\n\n", hex.EncodeToString(oidOf(o.ref)), typ)
+		fmt.Fprintf(&b, "object %s\ntype %s\ntag t\ntagger T <t@e> 1 +0000\n", hex.EncodeToString(oidOf(o.ref)), typ)
+		b.WriteString(o.extraHeaders(func(i int) string { return hex.EncodeToString(oidOf(i)) }))
+		b.WriteString("\n")
 		b.WriteString(strings.Repeat("x", o.pad))
 	}
 	return b.Bytes()
@@ -107,9 +173,9 @@ func encRepo(objs []gObj) string {
 			for _, p := range o.parents {
 				ps = append(ps, strconv.Itoa(p))
 			}
-			parts = append(parts, fmt.Sprintf("c:%d:%d:%s:%d", o.size, o.tree, joinOrDash(ps, "."), o.pad))
+			parts = append(parts, fmt.Sprintf("c:%d:%d:%s:%s", o.size, o.tree, joinOrDash(ps, "."), o.padField()))
 		case 'g':
-			parts = append(parts, fmt.Sprintf("g:%d:%d:%c:%d", o.size, o.ref, o.refKind, o.pad))
+			parts = append(parts, fmt.Sprintf("g:%d:%d:%c:%s", o.size, o.ref, o.refKind, o.padField()))
 		}
 	}
 	return strings.Join(parts, ",")
@@ -133,11 +199,11 @@ func decRepo(s string) []gObj {
 				pi, _ := strconv.Atoi(ps)
 				o.parents = append(o.parents, pi)
 			}
-			o.pad, _ = strconv.Atoi(f[4])
+			o.setPadField(f[4])
 		case 'g':
 			o.ref, _ = strconv.Atoi(f[2])
 			o.refKind = f[3][0]
-			o.pad, _ = strconv.Atoi(f[4])
+			o.setPadField(f[4])
 		}
 		objs = append(objs, o)
 	}
@@ -271,14 +337,18 @@ func genRepo(r *rng, tier string) []gObj {
 			if r.coin(1, 20) {
 				pad = 60000 + r.n(10000)
 			}
-			objs = append(objs, gObj{kind: 'c', tree: trees[r.n(len(trees))], parents: ps, pad: pad})
+			c := gObj{kind: 'c', tree: trees[r.n(len(trees))], parents: ps, pad: pad}
+			genExtra(r, &c, commits, trees)
+			objs = append(objs, c)
 		default:
 			ref := r.n(len(objs))
 			tags := indicesOf(objs, 'g')
 			if len(tags) > 0 && r.coin(1, 2) {
 				ref = tags[r.n(len(tags))]
 			}
-			objs = append(objs, gObj{kind: 'g', ref: ref, refKind: objs[ref].kind, pad: r.n(40)})
+			g := gObj{kind: 'g', ref: ref, refKind: objs[ref].kind, pad: r.n(40)}
+			genExtra(r, &g, nil, nil)
+			objs = append(objs, g)
 		}
 	}
 	for i := range objs {
